@@ -43,6 +43,12 @@ func TestC08Exhaustive(t *testing.T) {
 		buf := make([]byte, 0, l)
 		check := func(s string) {
 			total++
+			if total&1023 == 0 {
+				// cheap liveness signal: if the library never returns from one of the next strings the watchdog journals this one
+				// (the stuck string is at most 1023 strings further in enumeration order)
+				cur := s
+				SetCurrent("C08", "spec", func() interface{} { c := NewSpecCase(cur, nm.opts, nm.args); c.ViaRun = true; return c })
+			}
 			v, res := CheckSpecString(s, params, declared)
 			if v == nil && (len(s) <= 4 || Hash64(s)%61 == 0) {
 				viaRun++
@@ -94,6 +100,7 @@ func TestC08Exhaustive(t *testing.T) {
 				idx++
 			}
 		}
+		SetCurrent("", "", nil)
 		st.EvalN(total)
 		st.AddDistinct(nontrivial)
 		st.ClassN("exhaustive:strings", total)
